@@ -13,7 +13,7 @@ import (
 )
 
 func gen(g *vh.Gen) {
-	o := smtpd.Opts{Garbage: 0.12, MaxBody: 200}
+	o := smtpd.Opts{Garbage: 0.12, MaxBody: 200, Caps: true}
 	for i := 0; i < g.N(400, 20000); i++ {
 		c, pool := smtpd.GenCfg(g, o)
 		stream := smtpd.GenDialogue(g, c, pool, o)
